@@ -21,6 +21,17 @@ def R(mod, name, cfg="rc"):
 
 
 PROPS = {
+    "C17": dict(
+        rules=[R("dispatch", "rule_metakey_tables"), R("dispatch", "rule_dispatch_refs"), R("dispatch", "rule_dispatch_order"),
+               R("dispatch", "rule_obj_defaults"), R("arith", "rule_rem_zero")],
+        clause="The metakey tables are total and name-preserving end to end (R-METAKEY-TABLES); each operator function "
+               "references only its own metakeys and object methods and applies its own number operation (R-DISPATCH-REFS); "
+               "the arm priority equals the documented order with each metamap arm guarded by its own key "
+               "(R-DISPATCH-ORDER); KotoObject defaults report unimplemented or derive as documented (R-OBJ-DEFAULTS); "
+               "`x % y` and `x %= y` agree on the zero-divisor guard (R-REM-ZERO). Not decided: operand order, lookup order "
+               "through @meta/@base, results.",
+        technique="table reconstruction from HIR arm lists and MIR aggregates; per-function reference census",
+    ),
     "C20": dict(
         rules=[R("interchange", "rule_serde_kinds"), R("interchange", "rule_serde_enc"), R("interchange", "rule_parse_err")],
         clause="The kind tables of writer and reader agree in both directions: every serde method the KValue writer calls "
@@ -171,6 +182,5 @@ NOT_APPLICABLE = {
     "C09": "every clause constrains numeric cursor values computed from the input's characters; no structural "
            "necessary condition exists (DESIGN.md section 5)",
     "C15": "rules not built yet",
-    "C17": "rules not built yet",
     "C19": "rules not built yet",
 }
